@@ -1256,6 +1256,22 @@ class Interp:
             return {"starts_with": recv[1].startswith(args[0][1]), "ends_with": recv[1].endswith(args[0][1]), "contains": args[0][1] in recv[1]}[m]
         if isinstance(recv, tuple) and recv[:1] == ("str",):
             t = recv[1]
+            if m in ("contains", "starts_with", "ends_with") and args:
+                # a pattern that is an array / slice of chars: any of them
+                pat = args[0]
+                if isinstance(pat, MutList):
+                    pat = ("list", list(pat))
+                if isinstance(pat, tuple) and pat[:1] == ("list",) and pat[1] and all(_strval(c) is not None and len(_strval(c)) == 1 for c in pat[1]):
+                    cs = [_strval(c) for c in pat[1]]
+                    if m == "contains":
+                        return any(c in t for c in cs)
+                    return any(t.startswith(c) if m == "starts_with" else t.endswith(c) for c in cs)
+            if m in ("replace", "replacen") and len(args) >= 2 and _strval(args[0]) is not None and _strval(args[1]) is not None and _strval(args[0]) != "":
+                if m == "replacen":
+                    if isinstance(args[2], int) and not isinstance(args[2], bool):
+                        return ("str", t.replace(_strval(args[0]), _strval(args[1]), args[2]))
+                else:
+                    return ("str", t.replace(_strval(args[0]), _strval(args[1])))
             if m == "as_bytes":
                 return ("bytesof", t.encode())
             if m == "len":
